@@ -4,6 +4,7 @@ CONSTANTS
   NMsg = 2
   K = 2
   WithClose = FALSE
+  SendRecovers = TRUE
 INVARIANTS Inv_NoPanic Inv_Serial Inv_AtMostOnce Inv_PerSenderFIFO
 PROPERTY Live_ExactlyOnce
 CHECK_DEADLOCK FALSE
